@@ -182,7 +182,12 @@ def csvOp (kind ty lp nout sep comment maxB title mode hex : String) : String :=
   | _, _, _, _, _ => "bad-op"
 
 def step (line : String) : String :=
-  let toks := (line.splitOn " ").filter (· ≠ "")
+  let toks0 := (line.splitOn " ").filter (· ≠ "")
+  -- `reuse <op>`: the harness imports into a dataset object that already holds data; the importers assign
+  -- a fresh dataset, so the prediction is that of `<op>`
+  let toks := match toks0 with
+    | "reuse" :: t => t
+    | t => t
   match toks with
   | ["svm", fmt, lab, ty, dims, bs, mode, hex] => svmOp fmt lab ty dims bs mode hex
   | ["svmf", fmt, lab, ty, dims, bs, mode, hex] => svmOp fmt lab ty dims bs mode hex
